@@ -325,10 +325,113 @@ def check_cases(rep: Report, cases, stream: str):
     rep.streams[stream] = {"cases": len(cases), "disagreements": nbad}
 
 
+
+# ------------------------------------------------------------------ storage-dtype stream
+
+NARROW_INT = [torch.uint8, torch.int8, torch.int16, torch.int32]
+LOWP = [torch.float16, torch.bfloat16, torch.float64]
+
+
+def dtype_cases(rng: Rng, tier):
+    """(fn, reference kwargs [int64 labels / float32 scores], variant kwargs [same VALUES in another storage dtype])
+    Segmentation masks arrive as uint8, autocast scores as float16 / bfloat16: a count or a ratio of counts does not depend on
+    how its labels and scores are stored (every value used here is exactly representable in every dtype it is stored in)."""
+    mc = ["multiclass_accuracy", "multiclass_precision", "multiclass_recall", "multiclass_f1_score", "multiclass_confusion_matrix"]
+    reps = 6 if tier == "thorough" else 2
+    for _ in range(reps):
+        # (a) many classes, labels as predictions: class index x num_classes passes 255
+        for fn in mc:
+            C, n = 20, 96
+            ps, ls = [rng.randrange(C) for _ in range(n)], [rng.randrange(C) for _ in range(n)]
+            kw = {"input": it(ps), "target": it(ls), "num_classes": C}
+            if fn == "multiclass_confusion_matrix":
+                kw["normalize"] = rng.choice([None, "all", "pred", "true"])
+            else:
+                kw["average"] = rng.choice(["micro", "macro", None] if fn == "multiclass_accuracy" else AVGS)
+            for dt in NARROW_INT:
+                v = dict(kw)
+                v["target"] = kw["target"].to(dt)
+                if rng.random() < 0.5:
+                    v["input"] = kw["input"].to(dt)
+                yield fn, kw, v, ("labels", str(dt))
+        # (b) logits with narrow targets; low-precision logits (3-level grid: exact in every float dtype), k > 1 included
+        L3 = [Fr(0), Fr(1, 2), Fr(1)]
+        for fn in mc:
+            C = 3
+            for dt, n in [(torch.uint8, 40), (torch.int32, 40), (torch.float16, 4500), (torch.bfloat16, 700), (torch.float64, 300)]:
+                rows = [rng.grid(C, L3) for _ in range(n)]
+                ls = [rng.randrange(C) for _ in range(n)]
+                kw = {"input": ft([x for r in rows for x in r], shape=(n, C)), "target": it(ls), "num_classes": C}
+                if fn == "multiclass_confusion_matrix":
+                    kw["normalize"] = rng.choice([None, "all", "pred", "true"])
+                else:
+                    kw["average"] = rng.choice(["micro", "macro", None] if fn == "multiclass_accuracy" else AVGS)
+                    if fn == "multiclass_accuracy":
+                        kw["k"] = rng.choice([1, 2, 2])
+                v = dict(kw)
+                if dt.is_floating_point:
+                    v["input"] = kw["input"].to(dt)
+                else:
+                    v["target"] = kw["target"].to(dt)
+                yield fn, kw, v, ("logits", str(dt))
+        # (c) binary: narrow / bool targets, low-precision scores past 256 and 2048 samples
+        for fn in ["binary_accuracy", "binary_precision", "binary_recall", "binary_f1_score", "binary_confusion_matrix"]:
+            for dt, n in [(torch.uint8, 50), (torch.int8, 50), (torch.int32, 50), (torch.bool, 50), (torch.float16, 2300), (torch.bfloat16, 600), (torch.float64, 300)]:
+                kw = {"input": ft(rng.grid(n)), "target": it([rng.choice([0, 1]) for _ in range(n)]), "threshold": float(rng.choice(G5))}
+                v = dict(kw)
+                if dt.is_floating_point:
+                    v["input"] = kw["input"].to(dt)
+                else:
+                    v["target"] = kw["target"].to(dt)
+                yield fn, kw, v, ("binary", str(dt))
+        # (d) multilabel / top-k multilabel: 0/1 label masks in narrow dtypes
+        for crit in ["exact_match", "hamming", "overlap", "contain", "belong"]:
+            for dt in [torch.uint8, torch.int8, torch.int32, torch.bool]:
+                n, L = 12, 4
+                ys = [rng.choice([0, 1]) for _ in range(n * L)]
+                kw = {"input": ft(rng.grid(n * L), shape=(n, L)), "target": it(ys, shape=(n, L)), "threshold": float(rng.choice([Fr(1, 4), Fr(1, 2)])), "criteria": crit}
+                yield "multilabel_accuracy", kw, {**kw, "target": kw["target"].to(dt)}, ("multilabel", str(dt))
+                rows = [x for _r in range(n) for x in rng.sample([Fr(i, 16) for i in range(16)], L)]
+                kw = {"input": ft(rows, shape=(n, L)), "target": it(ys, shape=(n, L)), "criteria": crit, "k": rng.choice([2, 3])}
+                yield "topk_multilabel_accuracy", kw, {**kw, "target": kw["target"].to(dt)}, ("topk-multilabel", str(dt))
+
+
+def dtype_verdict(fn, kw_ref, kw_var):
+    """(holds: True | False | None = the variant dtype is refused or nothing to compare with, expected values, real outcome).
+    Expected: direct counting on the reference kwargs where the textbook oracle covers the function, else the real
+    function on the reference kwargs (int64 labels, float32 scores — the form the model stream checks)."""
+    real = real_call(fn, kw_var)
+    if real[0] != "ok":
+        return None, None, real
+    exp = oracle(fn, kw_ref)
+    if exp is not None:
+        return oracle_agrees(real, exp), [float(x) for x in exp], real
+    ref = real_call(fn, kw_ref)
+    if ref[0] != "ok" or len(ref[1]) != len(real[1]):
+        return None, None, real
+    ok = all(a.shape == b.shape and torch.allclose(a.to(torch.float64), b.to(torch.float64), rtol=2e-5, atol=1e-7, equal_nan=True) for a, b in zip(real[1], ref[1]))
+    return ok, [t.reshape(-1).to(torch.float64).tolist() for t in ref[1]], real
+
+
+def dtype_stream(rep: Report, rng: Rng):
+    for fn, kw, v, tag in dtype_cases(rng, rep.tier):
+        holds, exp, real = dtype_verdict(fn, kw, v)
+        rep.case(nontrivial_key=("dtype", fn, tag, repr(kw_json(fn, kw))[:200]))
+        rep.count(f"dtype-stream:{tag[0]}:{tag[1].replace('torch.', '')}")
+        if holds is None:
+            rep.count(f"dtype-stream:refused-or-uncovered:{fn}:{tag[1].replace('torch.', '')}")
+        elif holds is False:
+            rj = [t.reshape(-1)[:16].tolist() for t in real[1]]
+            rep.violation(f"C04|{fn}|{tag[1].replace('torch.', '')}-{tag[0]}|differs-from-textbook",
+                          f"{fn} on {tag[1]} {tag[0]} returns {rj} where the same values stored as int64 labels / float32 scores give {str(exp)[:300]}",
+                          {"kind": "dtype", "fn": fn, "reference": case_desc(fn, kw), "variant": case_desc(fn, v)})
+            return
+
 def run(rep: Report):
     rng = Rng(rep.seed * 1000003 + 4)
     from .. import opscheck; opscheck.check_ops(rep, ["count"])
     check_cases(rep, all_cases(rng, rep.tier), "functional")
+    dtype_stream(rep, Rng(rep.seed * 1000003 + 44))
 
 
 def search(rep: Report):
@@ -361,6 +464,17 @@ def replay(payload) -> bool:
     r = payload.get("replay")
     if not isinstance(r, dict) or not r:
         _nothing("the payload carries no replay dict")
+    if r.get("kind") == "dtype":
+        if not all(isinstance(r.get(k), dict) and "fn" in r[k] for k in ("reference", "variant")):
+            _nothing("dtype payload without its reference and variant calls")
+        fn, kw = case_from_desc(r["reference"])
+        _fn, v = case_from_desc(r["variant"])
+        holds, exp, real = dtype_verdict(fn, kw, v)
+        if holds is None:
+            _nothing("the variant dtype is refused by the function (not a wrong value)")
+        if holds is False:
+            print(f"replay: {fn} on the variant dtype returns {[t.reshape(-1)[:8].tolist() for t in real[1]]}, expected {str(exp)[:200]}"[:600])
+        return holds is True
     c = r.get("case")
     if r.get("kind") != "functional" or not isinstance(c, dict):
         _nothing(f"replay kind {r.get('kind')!r}: not a functional case" + (" (case recorded without tensor dtypes, old format)" if isinstance(c, dict) else ""))
